@@ -45,6 +45,8 @@ module Nat :
   val ltb : nat -> nat -> bool
  end
 
+val tl : 'a1 list -> 'a1 list
+
 val nth : nat -> 'a1 list -> 'a1 -> 'a1
 
 val nth_error : 'a1 list -> nat -> 'a1 option
@@ -898,6 +900,30 @@ val is_plain : n list -> bool
 val yaml_scalar : n list -> n list
 
 val read_scalar : n list -> n list option
+
+val sEP : n list
+
+val cOLON : n list
+
+val join_sep : n list list -> n list
+
+val env_entry : (n list * n list) -> n list
+
+val env_text : (n list * n list) list -> n list
+
+val starts2 : n -> n -> n list -> bool
+
+val head_is : n -> n list -> bool
+
+val split_colon : n list -> (n list * n list) option
+
+val read_key : n list -> (n list * n list) option
+
+val read_value : n list -> (n list * n list) option
+
+val read_entries : nat -> n list -> ((n list * n list) list * n list) option
+
+val read_env : n list -> ((n list * n list) list * n list) option
 
 val dec_aux : nat -> n -> n list -> n list
 
